@@ -104,6 +104,16 @@ func c07Mods(e *entry.Entry, other *entry.Entry, full bool) []mod {
 			})
 			add(name+"-replace", []int{i}, fmt.Sprintf("replace %s[%d]", name, i), func(x *entry.Entry) { (*get(x))[i] = extra })
 		}
+		// repeat a link the list already holds: right after itself, and at the other end of the list
+		for i := 0; i < n; i++ {
+			i := i
+			add(name+"-repeat", []int{i, 0}, fmt.Sprintf("repeat %s[%d] right after itself", name, i), func(x *entry.Entry) {
+				l := get(x)
+				*l = append(append(append([]cid.Cid{}, (*l)[:i+1]...), (*l)[i]), (*l)[i+1:]...)
+			})
+			add(name+"-repeat", []int{i, 1}, fmt.Sprintf("repeat %s[%d] at the end", name, i), func(x *entry.Entry) { l := get(x); *l = append(*l, (*l)[i]) })
+			add(name+"-repeat", []int{i, 2}, fmt.Sprintf("repeat %s[%d] at the front", name, i), func(x *entry.Entry) { l := get(x); *l = append([]cid.Cid{(*l)[i]}, *l...) })
+		}
 		add(name+"-add-front", nil, "add a link in front of "+name, func(x *entry.Entry) { l := get(x); *l = append([]cid.Cid{extra}, *l...) })
 		add(name+"-add-back", nil, "add a link at the end of "+name, func(x *entry.Entry) { l := get(x); *l = append(*l, extra) })
 		for i := 0; i+1 < n; i++ {
